@@ -452,6 +452,45 @@ add('competition/ecl07-duplicate-intrinsics', 'ECL_07', tags=['no-roundtrip'], m
     times(I0 = 4) { I1 = 7; }
     I2 = 9;
 ''')
+add('competition/intrinsics-without-signatures', 'ANM_12', mapfiles=['''!anmmap
+!ins_intrinsics
+900 Jmp()
+901 CountJmp()
+902 AssignOp(op="="; type="int")
+903 BinOp(op="+"; type="float")
+904 UnOp(op="sin"; type="float")
+905 InterruptLabel()
+'''], main_body='    nop();\n')
+add('competition/intrinsics-bad-signatures', 'ANM_12', mapfiles=['''!anmmap
+!ins_signatures
+900 S
+901 ff
+902 SSSS
+903 o
+!ins_intrinsics
+900 Jmp()
+901 CountJmp()
+902 AssignOp(op="="; type="int")
+903 BinOp(op="+"; type="float")
+'''], main_body='    nop();\n')
+add('competition/two-jmp-layouts', 'STD_12', mapfiles=['''!stdmap
+!ins_signatures
+900 ot
+901 to
+902 Sot
+903 Sto
+!ins_intrinsics
+900 Jmp()
+901 Jmp()
+902 CountJmp()
+903 CountJmp()
+'''], main_body='''
+  top:
+    ins_0();
++100:
+    loop { ins_0(); }
+    goto top @ 0;
+''')
 # --- PCB-style call signature inference with conflicting call sites in different subs
 add('competition/pcb-conflicting-callsites', 'ECL_07', items='''
 void targetA() {}
